@@ -53,6 +53,10 @@ class FloatEval:
                 return
             self.expr(mod, env, st.value)
             return
+        if isinstance(st, ast.AugAssign) and isinstance(st.target, ast.Name):
+            v = self.expr(mod, env, ast.BinOp(left=ast.Name(id=st.target.id, ctx=ast.Load()), op=st.op, right=st.value))
+            env[st.target.id] = v
+            return
         if isinstance(st, ast.Assign):
             v = self.expr(mod, env, st.value)
             for t in st.targets:
@@ -68,6 +72,37 @@ class FloatEval:
             if isinstance(t, bool):
                 for s in (st.body if t else st.orelse):
                     self.stmt(mod, env, s)
+                return
+            if isinstance(t, tuple) and t[0] == "cmp":
+                # comparison of an interval-valued local with a constant: both branches on the refined intervals,
+                # results joined (interval hull) - only for assignments to simple names
+                _, name, op, c = t
+                from mpmath import iv as _iv, mp as _mp
+                cur = env[name]
+                lo, hi = float(_mp.mpf(cur.v._mpi_[0])), float(_mp.mpf(cur.v._mpi_[1]))
+                if op in ("<", "<="):
+                    tr, fr = (lo, min(hi, c)), (max(lo, c), hi)
+                else:
+                    tr, fr = (max(lo, c), hi), (lo, min(hi, c))
+                outs = []
+                for rng, body in ((tr, st.body), (fr, st.orelse)):
+                    if rng[0] > rng[1]:
+                        continue
+                    e2 = dict(env)
+                    e2[name] = J(_iv.mpf([rng[0], rng[1]]), 0, 0, cur.err)
+                    for s2 in body:
+                        self.stmt(mod, e2, s2)
+                    outs.append(e2)
+                if not outs:
+                    return
+                for k in set().union(*[set(o) for o in outs]):
+                    vals = [o[k] for o in outs if k in o]
+                    if all(isinstance(v, J) for v in vals) and len(vals) == len(outs):
+                        a = min(float(_mp.mpf(v.v._mpi_[0])) for v in vals)
+                        b = max(float(_mp.mpf(v.v._mpi_[1])) for v in vals)
+                        env[k] = J(_iv.mpf([a, b]), 0, 0, max(v.err for v in vals))
+                    elif len(vals) == len(outs) and all(v is vals[0] or v == vals[0] for v in vals):
+                        env[k] = vals[0]
                 return
         raise Unsupported("UNSUPPORTED %s:%d %s" % (mod.path, st.lineno, type(st).__name__))
 
@@ -159,6 +194,12 @@ class FloatEval:
             if isinstance(e.op, ast.Div):
                 return a / b
             raise Unsupported("UNSUPPORTED operator %s at %s:%d" % (type(e.op).__name__, mod.path, e.lineno))
+        if isinstance(e, ast.Compare) and len(e.ops) == 1 and isinstance(e.left, ast.Name) and isinstance(env.get(e.left.id), J):
+            c = self.expr(mod, env, e.comparators[0])
+            if isinstance(c, (int, float)):
+                opn = {ast.Lt: "<", ast.LtE: "<=", ast.Gt: ">", ast.GtE: ">="}.get(type(e.ops[0]))
+                if opn:
+                    return ("cmp", e.left.id, opn, float(c))
         if isinstance(e, ast.Subscript):
             b = self.expr(mod, env, e.value)
             i = self.expr(mod, env, e.slice)
